@@ -149,12 +149,12 @@ def match_known(pid, finding, known):
 
 
 def write_replay(pid, payload):
-    rdir = os.path.join(core.VERIF, "replays")
+    rdir = os.environ.get("VERIF_REPLAY_DIR") or os.path.join(core.VERIF, "replays")
     os.makedirs(rdir, exist_ok=True)
     path = os.path.join(rdir, f"{pid}-{int(time.time())}-{os.getpid()}.json")
     with open(path, "w") as fh:
         json.dump(payload, fh, indent=1, default=str)
-    return os.path.relpath(path, core.VERIF)
+    return os.path.relpath(path, core.VERIF) if path.startswith(core.VERIF) else path
 
 
 def do_replay(pid, path):
@@ -322,7 +322,7 @@ def main():
         "wall_s": round(wall, 2),
         "violations": violations,
     }
-    edir = os.path.join(core.VERIF, "evidence")
+    edir = os.environ.get("VERIF_EVIDENCE_DIR") or os.path.join(core.VERIF, "evidence")
     os.makedirs(edir, exist_ok=True)
     tmp = os.path.join(edir, f".{pid}.{os.getpid()}.tmp")
     with open(tmp, "w") as fh:
